@@ -232,6 +232,12 @@ func c04Complete(c *Ctx, d *driverModel) {
 	// (i) forwarder: a function the go arm starts (closure or method) that completes the search after
 	// the result channel closed, exactly when the search is not infinite, with the last PV received
 	var fwd *goTarget
+	type complEv struct {
+		blk *ssa.BasicBlock
+		pv  ssa.Value
+	}
+	var events []complEv
+	msg := completionMessage(d) // design B: the forwarder posts (id, last PV, done) to the command loop, which completes
 	for _, t := range goTargets(d.process) {
 		t := t
 		if t.timer {
@@ -241,6 +247,13 @@ func c04Complete(c *Ctx, d *driverModel) {
 			for _, ins := range b.Instrs {
 				if call, ok := ins.(ssa.CallInstruction); ok && call.Common().StaticCallee() == d.searchCompleted {
 					fwd = &t
+					events = append(events, complEv{b, pvArgOf(call.Common())})
+				}
+				if snd, ok := ins.(*ssa.Send); ok && msg != nil {
+					if pv, ok := msg.sentDone(snd); ok {
+						fwd = &t
+						events = append(events, complEv{b, pv})
+					}
 				}
 			}
 		}
@@ -249,10 +262,10 @@ func c04Complete(c *Ctx, d *driverModel) {
 		r.Fail("R04-complete", "the forwarder completes a search that ends by itself", c.pos(d.process.Pos()), "", "no goroutine started by the go arm calls the completion function")
 	} else {
 		good, detail := false, "the completion is not guarded by the infinite flag"
-		for _, b := range fwd.fn.Blocks {
-			for _, ins := range b.Instrs {
-				call, ok := ins.(ssa.CallInstruction)
-				if !ok || call.Common().StaticCallee() != d.searchCompleted {
+		for _, ev := range events {
+			{
+				b := ev.blk
+				if b.Parent() != fwd.fn {
 					continue
 				}
 				// guard: the flag that is set exactly by the "infinite" option of the go command is false
@@ -291,7 +304,7 @@ func c04Complete(c *Ctx, d *driverModel) {
 				// the PV handed over is the last one received from the search's result channel
 				lastOK := false
 				nRecv := 0
-				for _, df := range fwd.outerDefs(call.Common().Args[len(call.Common().Args)-1]) {
+				for _, df := range fwd.outerDefs(ev.pv) {
 					if cst, ok := df.val.(*ssa.Const); ok && cst.Value == nil {
 						continue // zero value before anything was received
 					}
@@ -322,7 +335,7 @@ func c04Complete(c *Ctx, d *driverModel) {
 				lastOK = nRecv > 0
 				if !lastOK {
 					good = false
-					detail += "; completes with " + pathExpr(call.Common().Args[len(call.Common().Args)-1]) + ", which is not the last PV received from Analyze's channel"
+					detail += "; completes with " + pathExpr(ev.pv) + ", which is not the last PV received from Analyze's channel"
 				}
 			}
 		}
@@ -614,4 +627,127 @@ func pvArgOf(cc *ssa.CallCommon) ssa.Value {
 		}
 	}
 	return cc.Args[len(cc.Args)-1]
+}
+
+// complMsg describes design B of the completion: a message type sent on a driver channel whose receive case in
+// the command loop calls the completion function with the message's id and PV when its done flag is set.
+type complMsg struct {
+	chField *types.Var
+	st      *types.Struct
+	pvIdx   int
+	doneIdx int
+}
+
+func completionMessage(d *driverModel) *complMsg {
+	for _, b := range d.process.Blocks {
+		for _, ins := range b.Instrs {
+			call, ok := ins.(ssa.CallInstruction)
+			if !ok || call.Common().StaticCallee() != d.searchCompleted {
+				continue
+			}
+			pv := pvArgOf(call.Common())
+			fld, ok := stripConv(pv).(*ssa.Field)
+			var base ssa.Value
+			idx := -1
+			if ok {
+				base, idx = fld.X, fld.Field
+			} else if u, ok := stripConv(pv).(*ssa.UnOp); ok {
+				if fa, ok := u.X.(*ssa.FieldAddr); ok {
+					base, idx = fa.X, fa.Field
+				}
+			}
+			if base == nil {
+				continue
+			}
+			n := namedOf(base.Type())
+			if n == nil {
+				continue
+			}
+			st, ok := n.Underlying().(*types.Struct)
+			if !ok {
+				continue
+			}
+			// guarded by a bool field of the same message
+			doneIdx := -1
+			for _, ge := range edgeGuards(b) {
+				if !ge.pol {
+					continue
+				}
+				if gf, ok := stripConv(ge.cond).(*ssa.Field); ok && sameMessage(gf.X, base) {
+					doneIdx = gf.Field
+				}
+				if u, ok := stripConv(ge.cond).(*ssa.UnOp); ok {
+					if fa, ok := u.X.(*ssa.FieldAddr); ok && sameMessage(fa.X, base) {
+						doneIdx = fa.Field
+					}
+				}
+			}
+			if doneIdx < 0 {
+				continue
+			}
+			// the channel the message was received from: a chan-of-message field of the driver
+			dst := d.driverT.Underlying().(*types.Struct)
+			for i := 0; i < dst.NumFields(); i++ {
+				if ch, ok := dst.Field(i).Type().Underlying().(*types.Chan); ok && types.Identical(ch.Elem(), n) {
+					return &complMsg{chField: dst.Field(i), st: st, pvIdx: idx, doneIdx: doneIdx}
+				}
+			}
+		}
+	}
+	return nil
+}
+
+func sameMessage(a, b ssa.Value) bool {
+	a, b = stripConv(a), stripConv(b)
+	if a == b {
+		return true
+	}
+	// both loads/extracts of the same received tuple or cell
+	ra, rb := a, b
+	if u, ok := a.(*ssa.UnOp); ok {
+		ra = u.X
+	}
+	if u, ok := b.(*ssa.UnOp); ok {
+		rb = u.X
+	}
+	return ra == rb
+}
+
+// sentDone: the send posts a message with the done flag set on the completion channel; returns the PV it carries.
+func (m *complMsg) sentDone(snd *ssa.Send) (ssa.Value, bool) {
+	if fieldOfValue(snd.Chan) != m.chField {
+		return nil, false
+	}
+	// the message is a composite literal: a local cell whose fields are stored, then loaded and sent
+	u, ok := stripConv(snd.X).(*ssa.UnOp)
+	if !ok {
+		return nil, false
+	}
+	al, ok := u.X.(*ssa.Alloc)
+	if !ok {
+		return nil, false
+	}
+	var pv ssa.Value
+	done := false
+	for _, ref := range *al.Referrers() {
+		fa, ok := ref.(*ssa.FieldAddr)
+		if !ok {
+			continue
+		}
+		for _, r2 := range *fa.Referrers() {
+			st, ok := r2.(*ssa.Store)
+			if !ok || st.Addr != ssa.Value(fa) {
+				continue
+			}
+			if fa.Field == m.pvIdx {
+				pv = st.Val
+			}
+			if fa.Field == m.doneIdx {
+				if b, ok := constBoolArg(st.Val); ok && b {
+					done = true
+				}
+			}
+		}
+	}
+	return pv, done && pv != nil
 }
